@@ -124,7 +124,7 @@ func main() {
 			}
 			out := runCase(line)
 			fmt.Fprintf(w, "%s\t%s\n", line, out)
-			if strings.Contains(out, "TIMEOUT") {
+			if strings.Contains(out, "TIMEOUT") || strings.Contains(out, "BLOCKED") || strings.Contains(out, "GOROUTINES-LEFT") {
 				// the abandoned goroutine may be spinning: report this case and stop generating
 				w.Flush()
 				os.Exit(0)
